@@ -24,6 +24,8 @@ for d in ids:
               command="git -C /repo apply seeded/%s/patch.diff; /venv/bin/python check.py %s --tier %s; git -C /repo checkout -- ." % (d, r["property"], tier))
     mp = os.path.join(p, "meta.json")
     m = json.load(open(mp))
-    m.setdefault("evaluation", {})[tier] = ev
+    seed = os.environ.get("VERIF_SEED", "0")
+    ev["seed"] = int(seed)
+    m.setdefault("evaluation", {})[tier if seed == "0" else "%s-seed%s" % (tier, seed)] = ev
     json.dump(m, open(mp, "w"), indent=1)
     print(d, "detected" if ev["detected"] else "MISSED", "failing-input" if ev["failing_input_found"] else "no-failing-input", ev["wall_s"])
